@@ -550,6 +550,19 @@ def t4(ctx):
         facts['reversals'] = len(revs)
         facts['pushes_of_children'] = len(apps)
         if len(apps) != 1:
+            # several expansion paths (a fast path for some node kinds): each one that puts SEVERAL children on the stack must reverse them —
+            # the stack pops from the end, so children pushed in source order are visited last-to-first
+            for ap_ in apps:
+                arg_ = ap_['args'][0] if ap_['args'] else {}
+                has_rev = any(z.get('k') == 'mcall' and z['m'] in ('rev', 'reverse') for z in sx.walk(arg_))
+                root_ = sx.strip_ref(arg_)
+                while isinstance(root_, dict) and root_.get('k') in ('field', 'mcall', 'ref'):
+                    root_ = root_.get('e') or root_.get('recv')
+                if not has_rev and isinstance(root_, dict) and sx.is_path(root_):
+                    has_rev = any(z.get('k') == 'mcall' and z['m'] == 'reverse' and root_['p'] in squash(sx.render(z['recv'])) for z in revs)
+                if not has_rev:
+                    return 'wrong', ('one expansion path puts several children on the stack in source order (`%s`, no reversal): the stack pops from the end, so for those nodes '
+                                     'the children — e.g. the trivia behind a token — are visited last-to-first' % squash(sx.render(ap_))[:60]), facts
             return 'undecided', '%d append/extend onto the stack' % len(apps), facts
         if len(revs) == 0:
             return 'wrong', 'the children are put on the stack without being reversed: they would be visited last-to-first', facts
